@@ -53,7 +53,7 @@ Qed.
 
 (** the code before the repairs (all three choices the other way): an Integer member receives
     the float 2.0, a Boolean member the int 1, a ComplexModel member the list [] *)
-Definition unrepaired : leaf_cfg := mkleafcfg false false false false.
+Definition unrepaired : leaf_cfg := mkleafcfg false false false false false.
 Definition one_class : duniverse := [ mkdc [75] None [ mkdf [105] (DPrim (DInt None None)) 0 (Some 1) true ] [] ].
 
 Lemma dict_unrepaired_refuted :
@@ -64,7 +64,9 @@ Lemma dict_unrepaired_refuted :
   /\ (fdv C one_class 2 (DPrim DBool) true (JInt 1) = Ok (NInt 1)
       /\ ~ has_dtype one_class (NInt 1) (DPrim DBool))
   /\ (fdv C one_class 2 (DRef 0%nat) true JNull = Ok (NList [])
-      /\ ~ has_dtype one_class (NList []) (DRef 0%nat)).
+      /\ ~ has_dtype one_class (NList []) (DRef 0%nat))
+  /\ (fdv C one_class 2 (DWrap DText) true (JList [JInt 1]) = Ok (NRaw (JList [JInt 1]))
+      /\ ~ has_dtype one_class (NRaw (JList [JInt 1])) (DWrap DText)).
 Proof.
   cbn zeta. split; [reflexivity|].
   repeat split; try (vm_compute; reflexivity); cbn; intro H; exact H.
